@@ -9,6 +9,7 @@ import lib
 PROP = "C18"
 XID = re.compile(r'^[0-9a-v]{20}$')
 FULL = "9m4e2mr0ui3e8a215n4g"
+OTHER = "b4k7c1p0ts9d2e6f3g8h"      # a complete identifier a killed start left in token.tmp
 
 
 def one_start(lab, datadir, services, kill_after=None):
@@ -42,6 +43,10 @@ def run_history(lab, sc, rng_seed):
     if tok is not None:
         with open(os.path.join(datadir, "token"), "w") as fh:
             fh.write(tok)
+    if sc.get("tmp_file") is not None:
+        # what a start killed between creating the temporary file and renaming it leaves behind
+        with open(os.path.join(datadir, "token.tmp"), "w") as fh:
+            fh.write(sc["tmp_file"])
     observations, log = [], []
     for st in sc["starts"]:
         if st["completed"]:
@@ -62,7 +67,7 @@ def run_history(lab, sc, rng_seed):
 
 
 def judge(ck, sc, observations):
-    desc = "token file %r, starts %s" % (sc["token_file"], [(s["enabled"], "completed" if s["completed"] else "killed") for s in sc["starts"]])
+    desc = "token file %r%s, starts %s" % (sc["token_file"], (", leftover token.tmp %r" % sc["tmp_file"]) if sc.get("tmp_file") is not None else "", [(s["enabled"], "completed" if s["completed"] else "killed") for s in sc["starts"]])
     rp = {"scenario": sc, "observations": observations}
     done = [o for o in observations if "token" in o]
     for o in observations:
@@ -97,7 +102,8 @@ def concretise(s, rng):
         tf = FULL[:rng.choice([0, 0, 1, 10, 19])]
     else:
         tf = FULL
-    return {"token_file": tf, "starts": s["starts"]}
+    tmp = {"absent": None, "partial": OTHER[:rng.choice([0, 0, 7, 19])], "id": OTHER}[s.get("tmp", "absent")]
+    return {"token_file": tf, "tmp_file": tmp, "starts": s["starts"]}
 
 
 def run(tier, lab):
@@ -109,6 +115,9 @@ def run(tier, lab):
     rd = lib.tlc("MC_Identity", timeout=300, constants={"Devs": '{"token_read_back_unvalidated"}'}, want_scn=False)
     if rd.violated is None:
         raise lib.Infra("deviation token_read_back_unvalidated does not violate WellFormed in the model")
+    rd2 = lib.tlc("MC_Identity", timeout=300, constants={"Devs": '{"tmp_exclusive_create"}'}, want_scn=False)
+    if rd2.violated != "Stable":
+        raise lib.Infra("deviation tmp_exclusive_create does not violate Stable in the model")
     g = lib.tlc("MC_IdentityGen", timeout=300, constants={"NStarts": "3" if tier == "quick" else "4"})
     lib.tlc_must_pass(g, "Identity history generation")
     ck.add_tlc(g, "Identity: restart histories over 5 service sets x completed/killed x 3 initial token states")
@@ -119,7 +128,12 @@ def run(tier, lab):
     pick = rng.sample(uniq, min(n, len(uniq)))
     scs = [concretise(s, rng) for s in pick]
     for tf in (None, "", FULL[:1], FULL[:10], FULL[:19], FULL):
-        scs.append({"token_file": tf, "starts": [{"enabled": ["ssh", "ftp"], "completed": True}, {"enabled": ["ssh", "ftp", "ldap"], "completed": True}]})
+        scs.append({"token_file": tf, "tmp_file": None, "starts": [{"enabled": ["ssh", "ftp"], "completed": True}, {"enabled": ["ssh", "ftp", "ldap"], "completed": True}]})
+    # ... and every leftover of the temporary file beside an absent / truncated / complete token file
+    for tf in (None, FULL[:10], FULL):
+        for tmp in ("", OTHER[:7], OTHER):
+            scs.append({"token_file": tf, "tmp_file": tmp, "starts": [{"enabled": ["ssh"], "completed": True}, {"enabled": ["ssh"], "completed": True},
+                                                                       {"enabled": ["ssh", "agent"], "completed": True}]})
     results = [None] * len(scs)
     sem = threading.Semaphore(min(lib.NCPU, 12))
 
